@@ -101,6 +101,19 @@ CLAIMED['C15'] = ('other',
     'abstract interpretation: character-class dataflow to every return of validate()',
     'DESIGN.md section C15')
 
+CLAIMED['C02'] = ('other',
+    'Abstract interpretation in two passes: validate() is applied to each of its own abstract results (per assignment of the boolean '
+    'options, restricted to ASCII spellings): compact() must be the identity on them and every return path of the second application '
+    'must hand back the identical string (identity of cells, not equality of shapes), with at least one returning path; the first and '
+    'last character class of every result exclude whitespace. Because validate is deterministic this is validate(validate(x)) == '
+    'validate(x) for every accepted x, including presentations no test lists. 4 modules fail today (ch.ssn, fr.tva, no.kontonr, '
+    'no.mva) and are listed with their inputs.',
+    'Trusted: as C01; determinism from C13. Undecided (sa/scope.py): modules whose compact() rebuilds the string (cr.cpf, tn.mf, mac, '
+    'isan, meid, gs1_128, de.handelsregisternummer, nl.postcode) and the dispatching aggregates (eu.vat, vatin, us.tin). Non-ASCII '
+    'results are left to C15.',
+    'abstract interpretation with string-identity tracking (validate re-applied to its abstract results)',
+    'DESIGN.md section C02')
+
 NOT_APPLICABLE = {
 }
 
